@@ -122,6 +122,8 @@ fn gvar_events(rng: &mut Rng, ev: &mut Vec<Value>, rep: &mut Report) {
         // exercised by the packed-delta events, the application check stays inside the representable range)
         let dxs: Vec<i64> = (0..npts + 4).map(|i| if i >= npts && i != npts + 1 { 0 } else { *rng.pick(&[0i64, 0, 1, 2, -3, 10, 127, -128, 128, -129, 300, -2000, 4000]) }).collect();
         let dys: Vec<i64> = (0..npts + 4).map(|i| if i >= npts { 0 } else { *rng.pick(&[0i64, 0, 0, 1, -1, 5, 200]) }).collect();
+        // a master that does not move anything: every delta is optional
+        let (dxs, dys) = if rng.chance(1, 5) { (vec![0i64; npts + 4], vec![0i64; npts + 4]) } else { (dxs, dys) };
         let Some((iev, out)) = iup_event(&xs, &ys, &dxs, &dys, &ends1, tol100, rep) else { return };
         ev.push(iev);
         let tents: Vec<Tent> = tent.iter().map(|t| Tent::new(F2Dot14::from_bits(t.1), if *t == implied(t.1) { None } else { Some((F2Dot14::from_bits(t.0), F2Dot14::from_bits(t.2))) })).collect();
@@ -149,15 +151,19 @@ fn gvar_events(rng: &mut Rng, ev: &mut Vec<Value>, rep: &mut Report) {
         Ok(g) => g,
         Err(e) => return rep.violation(&format!("compiled gvar does not parse: {e}"), case),
     };
-    let data = match gvar.glyph_variation_data(GlyphId::new(1)) {
-        Ok(Some(d)) => d,
+    let nothing_to_store = !inputs.iter().any(|i| i.3.iter().any(|d| d.required));
+    let tuples: Vec<_> = match gvar.glyph_variation_data(GlyphId::new(1)) {
+        Ok(Some(d)) => d.tuples().collect(),
+        Ok(None) if nothing_to_store => vec![],
         other => return rep.violation(&format!("glyph variation data missing: {:?}", other.map(|o| o.is_some())), case),
     };
-    let tuples: Vec<_> = data.tuples().collect();
-    if tuples.len() != inputs.len() {
-        return rep.violation(&format!("{} tuples read back, {} written", tuples.len(), inputs.len()), case);
+    // a tuple in which no delta has to be encoded has no effect and need not be stored
+    let stored: Vec<_> = inputs.iter().filter(|i| i.3.iter().any(|d| d.required)).collect();
+    if tuples.len() != stored.len() && tuples.len() != inputs.len() {
+        return rep.violation(&format!("{} tuples read back, {} written ({} of them with a delta to encode)", tuples.len(), inputs.len(), stored.len()), case);
     }
-    for (t, (tent, dxs, dys, out)) in tuples.iter().zip(inputs.iter()) {
+    let zipped: Vec<_> = if tuples.len() == inputs.len() { inputs.iter().collect() } else { stored };
+    for (t, (tent, dxs, dys, out)) in tuples.iter().zip(zipped.into_iter()) {
         let peak_ok = t.peak().values.iter().map(|v| v.get().to_bits()).collect::<Vec<_>>() == tent.iter().map(|t| t.1).collect::<Vec<_>>();
         // the tuple's scalar at every combination of per-axis probe coordinates (edges, peak, midpoints, 0, +-1)
         let per_axis: Vec<Vec<i16>> = tent.iter().map(|(s, p, e)| {
